@@ -17,6 +17,18 @@ CHECKS = {
    note='Trusted: Coq kernel; hand-written SQLite comparison model (storage classes, exact int/real order, memcmp) validated on every pair; injectivity of optimised pickle as a premise. Table-level clauses (no shadowing through set/get, iteration order) are checked by the monitor here and proved in C03.',
    tech='Coq proof (case analysis over key classes) + generated model + exhaustive pair enumeration',
    ref='7 (C02)'),
+ 'C04': dict(
+   cat='proof',
+   text='Theorems over the row-level model whose SQL statements and expiry guards are regenerated from core.py on every run: every lookup (get, contains, pop, delete, touch, add-refusal, incr, pull, peek, peekitem) serves only rows with now < expire_time, a live row is found by every lookup, items without ttl never expire, the lazy cull and expire() select only passed rows and the lazy cull at most cull_limit; for every state, key and clock value. expire() on negative absolute expiry times refuted (finding C04-F1). Tie: SQL/guard translator + bridge lemmas (a flipped comparison breaks them) + row-level correspondence after every call + ledger monitor on the implementation (visibility decided from the previously observed table).',
+   note='Trusted: Coq kernel; relational model of the SQL subset (SqlBase.v) and the SQL-to-combinator compiler; hand-written control skeleton of Cache.v tied by correspondence. "expire() removes every passed item for any population" is decided by the monitor (populations up to 350 sharing one time) and by correspondence, not yet by a theorem over the paging loop. Float rounding of now+expire off the 2^-10 grid is outside the model.',
+   tech='Coq proof (bridge lemmas + case analysis/induction over the generated lookups and retry loops) + generated model + differential testing with a visibility ledger',
+   ref='7 (C04)'),
+ 'C08': dict(
+   cat='proof',
+   text='Invariant by induction over arbitrary histories of the full API (any clock, any volume oracle): Settings.count = number of rows and Settings.size = SUM(size), via a generic closure theorem (any predicate preserved by insert/update/delete with the generated trigger arithmetic is preserved by every API call). Files-vs-rows agreement and Cache.check() silence are decided by the monitor after every call, under single injected SQL/file faults and unencodable values, and by the row/file correspondence.',
+   note='Trusted: Coq kernel; trigger model; fault injection raises before the statement executes (COMMIT/ROLLBACK/unlink are not injection points). The file clause is not yet a theorem (monitor + correspondence only); concurrent clause is C05. incr storing a non-native value inside its transaction is outside the rollback cleanup (rare: only big ints with a tiny disk_min_file_size).',
+   tech='Coq proof (generic invariant-closure theorem over the operation skeletons + trigger bridge lemmas) + fault-injection monitor',
+   ref='7 (C08)'),
  'C16': dict(
    cat='proof',
    text='Theorems about the args_to_key regenerated from core.py on every run: key injectivity for every base/typed/ignore/arity (full statement refuted by a vm_compute witness = finding C16-F1; strongest true restriction proved), wrapper returns f / repeat served from cache / expire<=0 stores nothing for Cache, Django wrappers, stampede guard key distinct. Tie: fail-closed AST translator + model-vs-implementation key comparison + exhaustive pair monitor on the implementation.',
